@@ -803,3 +803,130 @@ def rule_M4(chk, prog):
                             "number of increments so far) is lost" % ck[2], function=d["full"],
                             construct="write counted")
     return n
+
+
+# ---------------------------------------------------------------------------------------------
+# M6: what the destructor deletes is deleted nowhere else without the slot being re-assigned
+
+def member_root(e, aliases=None, depth=0):
+    """Name of the this->member an expression is rooted at (m, m[i], *m, m->at(i) ...), following local aliases."""
+    e = C.strip_casts(e)
+    if e is None or depth > 6:
+        return None
+    k = e.get("k")
+    mn = C.member_name(e)
+    if mn:
+        return mn
+    if k == "Idx":
+        return member_root(e["a"], aliases, depth + 1)
+    if k == "Un" and e.get("op") in ("*", "&"):
+        return member_root(e["x"], aliases, depth + 1)
+    if k == "Call" and e.get("obj") is not None and (e.get("op") in ("[]", "*", "->") or e.get("n") in
+                                                     ("at", "front", "back", "get", "data")):
+        return member_root(e["obj"], aliases, depth + 1)
+    if k == "Ref" and aliases and "id" in e and e["id"] in aliases:
+        return aliases[e["id"]]
+    return None
+
+
+def rule_M6(chk, lib):
+    n = 0
+    seen = set()
+    for rec in lib.decls:
+        if rec["kind"] != "record" or rec.get("dependent"):
+            continue
+        clsq = rec["qname"]
+        if clsq in seen or not (rec.get("file") or "").startswith(prog_src()):
+            continue
+        seen.add(clsq)
+        methods = [m for m in lib.methods_of(clsq) if m.get("body") and not m.get("dependent")]
+        dtors = [m for m in methods if m.get("dtor")]
+        if not dtors:
+            continue
+        owned = {}
+        for dt in dtors:
+            for s in C.walk_stmt(dt["body"]):
+                if s.get("k") == "Delete":
+                    r = member_root(s["x"])
+                    if r:
+                        owned.setdefault(r, s)
+        if not owned:
+            continue
+        for m in methods:
+            if m.get("dtor"):
+                continue
+            g = None
+            # local aliases of owned members: T *p = member[...]
+            aliases = {}
+            for s in C.walk_stmt(m["body"]):
+                if s.get("k") == "Decl":
+                    for d in s["d"]:
+                        if d.get("init") is not None and _ptr_type(d.get("t")):
+                            r = member_root(d["init"], aliases)
+                            if r in owned:
+                                aliases[d["id"]] = r
+                if s.get("k") == "ForRange" and s.get("var") is not None:
+                    r = member_root(s.get("range"), aliases) if s.get("range") else None
+                    if r in owned and _ptr_type(s["var"].get("t")):
+                        aliases[s["var"]["id"]] = r
+            dels = []
+            alias_decl = {}
+            for s in C.walk_stmt(m["body"]):
+                if s.get("k") == "Decl":
+                    for d in s["d"]:
+                        if d["id"] in aliases:
+                            alias_decl[d["id"]] = s
+            for s in C.walk_stmt(m["body"]):
+                if s.get("k") == "Delete":
+                    r = member_root(s["x"], aliases)
+                    if r not in owned:
+                        continue
+                    op = C.strip_casts(s["x"])
+                    via_alias = op.get("k") == "Ref" and op.get("id") in aliases
+                    if C.member_name(op) == r:
+                        # `delete member;` of a scalar owner: whether the member is re-created before the next delete /
+                        # the destructor is the class's call protocol (reset() ... initialize()), not visible here
+                        continue
+                    dels.append((s, r, alias_decl.get(op.get("id")) if via_alias else None))
+            if not dels:
+                continue
+            g = C.CFG(m)
+            for dnode, r, adecl in dels:
+                # the CFG node holding this delete (for an alias: the node of the alias declaration - a slot that is
+                # re-assigned between taking the alias and deleting it no longer holds the deleted pointer)
+                anchor = adecl if adecl is not None else dnode
+                holder = [nd for nd in g.nodes if (nd.kind == "decl" and nd.ast is anchor) or
+                          any(x is anchor for a in node_exprs(nd) for x in C.walk(a))]
+                if not holder:
+                    continue
+                h = holder[0]
+
+                def resets(nd, r=r):
+                    for a in node_exprs(nd):
+                        for x in C.walk(a):
+                            if x.get("k") == "Bin" and x.get("op") == "=" and member_root(x["a"]) == r and \
+                                    C.strip_casts(x["a"]).get("k") != "Ref":
+                                return True
+                            if x.get("k") == "Call" and x.get("op") == "=" and x.get("obj") is not None and \
+                                    member_root(x["obj"]) == r:
+                                return True
+                            if x.get("k") == "Call" and x.get("obj") is not None and member_root(x["obj"]) == r and \
+                                    x.get("n") in ("erase", "clear", "pop_back", "resize", "swap", "assign"):
+                                return True
+                    return False
+                rs = {nd.id for nd in g.nodes if resets(nd)}
+                n += 1
+                okk = h.id in rs or g.all_paths_pass(h.id, rs)
+                chk.require(okk, "M6", "%s::%s deletes what `%s` owns (line %s) and re-assigns / removes the slot on every path" %
+                            (clsq, m["name"], r, dnode.get("l")), where(dnode, m),
+                            "the destructor of %s deletes the objects held in `%s`; this function deletes one of them too and a path "
+                            "reaches its end without assigning the slot or removing the element (clearing a local copy of the "
+                            "pointer does not count): the destructor frees it a second time" % (clsq, r),
+                            function=m["full"], construct="second owner of %s" % r)
+    return n
+
+
+def prog_src():
+    import os
+    from ..astdb import REPO
+    return os.path.join(REPO, "src")
